@@ -11,7 +11,7 @@
     and the harness's spin detector check the same on implementation traces. *)
 Require Import Selium.Base Selium.PubSub Selium.PubSubSpec Selium.P_PubSub Selium.P_PubSubPark.
 Require Import Selium.ReqRep Selium.ReqRepSpec Selium.P_ReqRep Selium.P_ReqRepOrder.
-Require Import Selium.P_PubSubWork Selium.P_ReqRepWork.
+Require Import Selium.P_PubSubWork Selium.P_ReqRepWork Selium.P_PubSubPass Selium.P_ReqRepPass.
 Open Scope N_scope.
 
 Theorem c09_pubsub_no_sleep_on_undone_work : forall tr0 s0 seg s1 r,
@@ -88,6 +88,29 @@ Print Assumptions c09_pubsub_never_spins.
 Theorem c09_reqrep_never_spins : forall s, exists s', rsettled s = Some s'.
 Proof. exact rr_settled_total. Qed.
 Print Assumptions c09_reqrep_never_spins.
+
+(** "whenever it yields ... it has arranged to be woken", the publisher side of the pub/sub router:
+    whenever a poll is about to return Pending, either it is blocked on a subscriber sink that
+    holds the task's waker, or EVERY publisher stream in the map holds it -- each was asked in this
+    poll and answered Pending last (tokio's StreamMap pass: a cyclic sweep from a start index over
+    a vector that shrinks by swap_remove under the cursor) *)
+Theorem c09_pubsub_parks_armed_everywhere : forall tr s,
+  run init tr = Some s -> ctl s = PReturn false ->
+  (forall j, In j (streams s) -> is_armed (SStream j) (armed s) = true)
+  \/ (exists k, is_armed (SSink k) (armed s) = true).
+Proof. exact ps_parks_armed_everywhere. Qed.
+Print Assumptions c09_pubsub_parks_armed_everywhere.
+
+(** the same for the request/reply router: blocked on a sink that holds the waker, or every requestor
+    stream holds it AND so does the bound replier's stream (if a replier is bound): this is what the
+    [server_pending] / [stream_pending] flags have to mean whenever the loop leaves through them *)
+Theorem c09_reqrep_parks_armed_everywhere : forall tr s,
+  rrun rinit tr = Some s -> rctl s = RReturn false ->
+  (exists l, is_armed (SSink l) (rarmed s) = true)
+  \/ ((forall l, In l (labels (rstreams s)) -> is_armed (SStream l) (rarmed s) = true)
+      /\ match server s with Some l => is_armed (SStream l) (rarmed s) = true | None => True end).
+Proof. exact rr_parks_armed_everywhere. Qed.
+Print Assumptions c09_reqrep_parks_armed_everywhere.
 
 (** the bounds are not vacuous: a poll of a router with two subscribers and a publisher that hands
     over two items makes 11 peer calls, bound (2 + 0 + 1) * 10 *)
